@@ -15,6 +15,8 @@ CTYPE = {
     'ispunct': frozenset([b for b in range(33, 127) if not (48 <= b < 58 or 65 <= b < 91 or 97 <= b < 123)]),
 }
 ALL = frozenset(range(256))
+PROG = None          # set by the driver: lets a predicate follow one-line character helpers of the analysed program
+_depth = [0]
 
 
 def _strip(f, idx):
@@ -112,6 +114,22 @@ def _truth(f, idx, is_subject, b):
         if a is None or c is None:
             return None
         return {'<': a < c, '>': a > c, '<=': a <= c, '>=': a >= c, '==': a == c, '!=': a != c}[n['op']]
+    if k == 'call' and PROG is not None and n.get('ck') in getattr(PROG, 'funcs', {}) and len(n.get('args', [])) == 1 and _depth[0] < 3:
+        # a character predicate moved into a helper (`IsUnreservedChar(c)`): a function of one character whose body is a single
+        # return - evaluated in place with the helper's parameter as the subject
+        callee = PROG.funcs[n['ck']]
+        rets = [m for m in callee.nodes if m['k'] == 'return' and m.get('e') is not None and m['e'] >= 0]
+        loops = [m for m in callee.nodes if m['k'] in ('for', 'while', 'do', 'forrange')]
+        if len(rets) == 1 and not loops and len(callee.params) == 1 and 'char' in (callee.params[0].get('t') or ''):
+            v = _value(f, n['args'][0], is_subject, b)
+            if v is None:
+                return None
+            pid_ = callee.params[0]['id']
+            _depth[0] += 1
+            try:
+                return _truth(callee, rets[0]['e'], lambda i: callee.nodes[i]['k'] == 'ref' and callee.nodes[i].get('id') == pid_, v & 0xff)
+            finally:
+                _depth[0] -= 1
     if k == 'call':
         name = strip_targs(n.get('c', '') or '').rsplit('::', 1)[-1]
         if name in CTYPE and n.get('args'):
